@@ -22,7 +22,8 @@
       [TInterp] ("`text{", "}text{", "}text`", or the whole "`text`" when there is no
       expression) and the expressions between them are lexed normally; a stack of brace
       depths ([list nat], one entry per interpolated string being read) tells which "}"
-      resumes the string.  "{{" is not rejected (Luau rejects it);
+      resumes the string.  A raw line break in a text part is an error, as in a quoted string.
+      "{{" is not rejected (Luau rejects it);
     - comments are tokens of kind [TComment] in [lex_all]; [lex] drops them;
     - symbols: + - * / // % ^ # == ~= <= >= < > = ( ) { } [ ] ; : :: , . .. ...
       -> += -= *= /= //= %= ^= ..= ? & | @ . *)
@@ -225,6 +226,7 @@ Definition step_st (st : lstate) (c : N) : option (list token * lstate) :=
     Some (if esc then ([], LInterp false (c :: racc))
           else if c =? 92 then ([], LInterp true (c :: racc))
           else if c =? 96 then ([(TInterp, rev (c :: racc))], LStart)
+          else if (c =? 10) || (c =? 13) then ([], LErr)   (* a raw line break inside the literal *)
           else ([], LInterp false (c :: racc)))      (* "{" is handled by [step] *)
   | LDash2 racc =>
     Some (if c =? 91 then ([], LDashBr 0 (c :: racc))
